@@ -123,13 +123,16 @@ Definition T_UNSORTED : Z := 4.
 Definition T_INTERIOR : Z := 8.  (* some window strictly inside the data *)
 Definition T_FULL : Z := 16.   (* q = n *)
 Definition T_BORDER : Z := 32.
-Definition T_BASIS : Z := 64.  (* reserved: set by the harness-independent LLS op *)
+Definition T_DEGEN : Z := 64.  (* a zero weight or a repeated abscissa in the data *)
 Definition T_ILL : Z := 128.   (* kappa > 1e11: only the orthogonality check applied *)
 Definition T_LLS : Z := 256.
 Definition T_POLY : Z := 512.
 Definition T_LOESS : Z := 1024.
 Definition T_EDGEWIN : Z := 2048. (* some window at the first or last position with q < n *)
 Definition bit (b : bool) (t : Z) : Z := if b then t else 0%Z.
+Fixpoint has_dup (l : list Q) : bool :=
+  match l with [] => false | a :: t => existsb (Qeqb a) t || has_dup t end.
+Definition degen (xs wl : list Q) : bool := existsb (fun v => Qeqb v 0) wl || has_dup xs.
 
 (* the common part of LLS and POLY, given the exact minimiser [beta] and kappa (None: > representable,
    treated as ill-conditioned): returns (tag bits, None) or (tag bits, Some (pos, diag)) *)
@@ -175,11 +178,37 @@ Definition first_bad {A} (f : A -> bool) (l : list A) : option Z :=
 (* ---------- LOESS ---------- *)
 Definition eps_q : Q := 1 # (2 ^ 50)%positive.
 Definition dedup_nat (l : list nat) : list nat := nodup Nat.eq_dec l.
-(* admissible window widths: ceil of span*n exactly and with the product moved by one part in 2^50 *)
+(* q is a binary64 number: m * 2^e with |m| < 2^53, e >= -1074, below the overflow threshold.  When the
+   exact value of a floating-point operation is such a number the operation is EXACT, the code's decision
+   is the exact decision and NO borderline alternative is admitted (DESIGN 4.5 applies only where rounding
+   can occur). *)
+Definition f64_exact (q : Q) : bool :=
+  let r := Qred q in
+  match Qnum r with
+  | Z0 => true
+  | Zpos p | Zneg p =>
+      let '(od, _) := pos_odd_part p 0 in
+      let '(dd, k) := pos_odd_part (Qden r) 0 in
+      Pos.eqb dd 1 && (Pos.size_nat od <=? 53)%nat && (k <=? 1074)%Z && Qle_bool (Qabs r) (two_pow 1023)
+  end.
+(* admissible window widths: ceil of span*n exactly; if the product span*float64(n) is not exact, also with
+   the product moved by one part in 2^50 *)
 Definition q_cands (n : nat) (span : Q) : list nat :=
-  dedup_nat [loess_q n span; loess_q n (span * (1 - eps_q)); loess_q n (span * (1 + eps_q))].
+  if f64_exact (span * Qofnat n) then [loess_q n span]
+  else dedup_nat [loess_q n span; loess_q n (span * (1 - eps_q)); loess_q n (span * (1 + eps_q))].
+(* the search predicate as the code evaluates it: xs[i]+xs[i+q] is exact when the sum is a binary64 number
+   (then the comparison with x*2 is the exact one), otherwise within one part in 2^50 of the sum *)
+Definition window_pred_fl (e : Q) (xs : list Q) (q : nat) (x : Q) (i : nat) : bool :=
+  match nth_error xs i, nth_error xs (i + q) with
+  | Some a, Some b =>
+      let s := a + b in
+      if f64_exact s && f64_exact (x * 2) then Qle_bool (x * 2) s else Qle_bool (x * 2) (s + e * Qabs s)
+  | _, _ => true
+  end.
+Definition window_start_fl (e : Q) (xs : list Q) (q : nat) (x : Q) : nat :=
+  if (q <? length xs)%nat then search (length xs - q) (window_pred_fl e xs q x) else O.
 Definition n0_cands (xs : list Q) (q : nat) (x : Q) : list nat :=
-  dedup_nat [window_start 0 xs q x; window_start eps_q xs q x; window_start (- eps_q) xs q x].
+  dedup_nat [window_start 0 xs q x; window_start_fl eps_q xs q x; window_start_fl (- eps_q) xs q x].
 
 (* one query under one window decision: 0 agrees, 1 model singular or ill-conditioned (no claim), 2 disagrees.
    Same pieces as Model.loess_at (loess_design, monomials, the verified solver, polyF); the solver is
@@ -244,7 +273,7 @@ Definition check_loess (xs ys : list Q) (deg : Z) (span : xreal) (st : Z) (qs : 
         let n := length xs in
         let '(sx, sy) := loess_prepare xs ys in
         let qe := loess_q n s in
-        let base := Z.lor (bit (negb (sortedb xs)) T_UNSORTED) (bit (qe =? n)%nat T_FULL) in
+        let base := Z.lor (Z.lor (bit (negb (sortedb xs)) T_UNSORTED) (bit (qe =? n)%nat T_FULL)) (bit (has_dup xs) T_DEGEN) in
         let '(ok, border, tg, bad) := loess_queries sx sy deg qe qs 0%Z in
         if ok then
           let nontrivial := negb (tg =? 0)%Z in
@@ -285,7 +314,7 @@ Definition check_lls (xs ys : list Q) (w : option (list Q)) (cols : list (list Q
     | None => verdict V_OK 0 (-1) []                   (* singular design: outside the property *)
     | Some (beta, kap) =>
       let kappa := Some kap in
-      let tag := Z.lor T_LLS (bit (match w with Some _ => true | None => false end) T_W) in
+      let tag := Z.lor (Z.lor T_LLS (bit (match w with Some _ => true | None => false end) T_W)) (bit (degen xs wl) T_DEGEN) in
       match check_fit cols wl ys beta kappa ps with
       | (t, None) => verdict V_OK (Z.lor tag t) (-1) []
       | (t, Some (pos, diag)) => verdict V_MISMATCH (Z.lor tag t) pos diag
@@ -305,7 +334,8 @@ Definition check_poly (xs ys : list Q) (w : option (list Q)) (deg : Z) (st : Z) 
     | None => verdict V_OK 0 (-1) []                   (* singular design: outside the property *)
     | Some (beta, kap) =>
       let kappa := Some kap in
-      let tag := Z.lor (Z.lor T_POLY (bit (match w with Some _ => true | None => false end) T_W)) (bit (3 <=? deg)%Z T_DEG3) in
+      let tag := Z.lor (Z.lor (Z.lor T_POLY (bit (match w with Some _ => true | None => false end) T_W)) (bit (3 <=? deg)%Z T_DEG3))
+                       (bit (degen xs wl) T_DEGEN) in
       match check_fit cols wl ys beta kappa cs with
       | (t, Some (pos, diag)) => verdict V_MISMATCH (Z.lor tag t) pos diag
       | (t, None) =>
